@@ -17,5 +17,24 @@ From TP Require PMonSound_C02 PObs PMon.
 Theorem mon_sound : forall c tr, clean (run c tr) -> PMon.ok_C02 c (PObs.observe c tr) = true.
 Proof. exact PMonSound_C02.mon_C02_sound. Qed.
 
+(** "Eventually": the pool cannot livelock.  Without new operations from the environment every
+    sequence of internal steps (running ANY ready handle, continuing from a user-code point) from
+    a reachable state is finite - its length is bounded by the measure [mu] of the state, whatever
+    order the scheduler picks handles in - and it can always be extended to a quiet idle point
+    (control idle, no ready handle), at which the at-rest clauses of C02 / C04 apply. *)
+From TP Require PProgress_def PProgress.
+Theorem C02_no_livelock : forall c tr0, clean (run c tr0) ->
+  forall tr, PProgress_def.internal_run (run c tr0) tr ->
+  length tr <= PProgress_def.mu (run c tr0) /\
+  exists tr', PProgress_def.internal_run (run c tr0) (tr ++ tr') /\
+              PProgress_def.quiet (fold_left step (tr ++ tr') (run c tr0)) /\
+              length (tr ++ tr') <= PProgress_def.mu (run c tr0).
+Proof.
+  intros c tr0 Hc tr Hr. split.
+  - exact (PProgress.progress_bounded_mu c tr0 Hc tr Hr).
+  - exact (PProgress.progress_settles_any c tr0 Hc tr Hr).
+Qed.
+
 Print Assumptions C02.
+Print Assumptions C02_no_livelock.
 Print Assumptions mon_sound.
